@@ -152,8 +152,34 @@ func init() {
 	})
 
 	// ---- Pool
+	// sync.Pool: Put keeps the item; Get hands out the most recently kept item or a new one -
+	// both are behaviours the real pool may show, and both are explored (a decision) whenever
+	// something is kept.  (A pool that forgets everything is the "new one" branch throughout.)
+	poolItems := func(w *World, p *Value) []Value {
+		if v, ok := w.ext["syncpools"]; ok {
+			return v.(map[*Value][]Value)[p]
+		}
+		return nil
+	}
+	setPoolItems := func(w *World, p *Value, items []Value) {
+		var m map[*Value][]Value
+		if v, ok := w.ext["syncpools"]; ok {
+			m = v.(map[*Value][]Value)
+		} else {
+			m = map[*Value][]Value{}
+			w.ext["syncpools"] = m
+		}
+		m[p] = items
+	}
 	reg("(*sync.Pool).Get", func(w *World, t *Thread, fr *frame, fn *ssa.Function, args []Value) Value {
 		p := args[0].(*Value)
+		if items := poolItems(w, p); len(items) > 0 {
+			if w.chooseN(2, "sync.Pool reuse") == 0 {
+				it := items[len(items)-1]
+				setPoolItems(w, p, items[:len(items)-1:len(items)-1])
+				return it
+			}
+		}
 		st := recvStruct(fn)
 		nf := *w.field(p, st, "New")
 		switch f := nf.(type) {
@@ -164,7 +190,12 @@ func init() {
 		}
 		return w.callValue(t, fr, nf, nil)
 	})
-	reg("(*sync.Pool).Put", nop)
+	reg("(*sync.Pool).Put", func(w *World, t *Thread, fr *frame, fn *ssa.Function, args []Value) Value {
+		p := args[0].(*Value)
+		items := poolItems(w, p)
+		setPoolItems(w, p, append(items[:len(items):len(items)], args[1]))
+		return nil
+	})
 
 	// ---- atomic primitives
 	for _, ty := range []string{"Int32", "Int64", "Uint32", "Uint64", "Uintptr", "Pointer"} {
